@@ -94,7 +94,7 @@ type G struct {
 	clock  VC
 	wake   VC // clock to join when continuing after a wake-up
 	block  string
-	nev    uint32
+	lastEv int
 }
 
 type waiter struct {
@@ -383,6 +383,24 @@ func (s *Sched) dispatch(from *G) {
 	}
 	s.res.Events++
 	s.cur = g
+	if s.opt.Clocks {
+		g.clock[g.ID]++
+	}
+	if s.opt.Record {
+		ev := Event{G: g.ID, Kind: g.kind, Obj: g.obj, Arg: g.arg}
+		if g.woken {
+			ev.Kind = OpContinue
+		}
+		if s.opt.Clocks {
+			ev.Clock = g.clock.copyVC()
+		}
+		g.lastEv = len(s.res.Trace)
+		s.res.Trace = append(s.res.Trace, ev)
+	}
+	if g.woken && g.wake != nil {
+		g.clock.join(g.wake)
+		g.wake = nil
+	}
 	if s.opt.OnPoint != nil {
 		s.opt.OnPoint(s)
 	}
@@ -411,20 +429,12 @@ func (s *Sched) arrive(kind OpKind, obj, arg int) *G {
 	g.kind, g.obj, g.arg, g.woken = kind, obj, arg, false
 	s.dispatch(g)
 	// chosen: g executes its op now
-	if s.opt.Clocks {
-		g.clock[g.ID]++
-	}
-	g.nev++
 	return g
 }
 
 func (s *Sched) record(g *G, blocked bool) {
-	if s.opt.Record {
-		e := Event{G: g.ID, Kind: g.kind, Obj: g.obj, Arg: g.arg, Blocked: blocked}
-		if s.opt.Clocks {
-			e.Clock = g.clock.copyVC()
-		}
-		s.res.Trace = append(s.res.Trace, e)
+	if blocked && s.opt.Record {
+		s.res.Trace[g.lastEv].Blocked = true
 	}
 }
 
@@ -437,21 +447,7 @@ func (s *Sched) block(g *G) {
 	}
 	s.record(g, true)
 	s.dispatch(g)
-	// woken and chosen: continue event
-	if s.opt.Clocks {
-		g.clock[g.ID]++
-		if g.wake != nil {
-			g.clock.join(g.wake)
-			g.wake = nil
-		}
-	}
-	if s.opt.Record {
-		e := Event{G: g.ID, Kind: OpContinue, Obj: g.obj}
-		if s.opt.Clocks {
-			e.Clock = g.clock.copyVC()
-		}
-		s.res.Trace = append(s.res.Trace, e)
-	}
+	// woken and chosen: the continue event was recorded by dispatch
 }
 
 func (s *Sched) wakeG(g *G, from *G) {
